@@ -57,13 +57,16 @@ def _resolve_target(
     # _data_ has been loaded already. If an operation has made the document a
     # string, it is a JSON string, not JSON text to be parsed.
     parent, obj = pointer._resolve_parent(data)
-    if parent is not None and obj is not UNDEFINED:
-        target = pointer.parts[-1]
-        if isinstance(parent, Mapping):
-            if _member_name(parent, target) not in parent:
-                obj = UNDEFINED
-        elif isinstance(parent, Sequence) and not _is_index(target):
-            raise JSONPatchError(f"invalid array index {target!r}")
+    if parent is None:
+        return parent, obj
+
+    target = pointer.parts[-1]
+    if isinstance(parent, Mapping):
+        if obj is not UNDEFINED and _member_name(parent, target) not in parent:
+            obj = UNDEFINED
+    elif isinstance(parent, Sequence) and target != "-" and not _is_index(target):
+        # "#5", in or out of range.
+        raise JSONPatchError(f"invalid array index {target!r}")
     return parent, obj
 
 
